@@ -4,6 +4,7 @@ from rules import macro_mir as MM
 from rules import libimpls as L
 from rules import export_rules as E
 from rules import determinism as D
+from rules import field_rules as F
 
 ASSUMPTIONS = ["correctness of the relative specifier itself (C08) and name collisions between different types with one TypeScript name are NOT decided"]
 
@@ -15,7 +16,7 @@ def run(ctx):
         res = [T.deps_record_rule(m["ts_rs_macros"], "C03"), L.visit_agreement_rule(m["ts_rs"], "C03", rule="C03.R2"),
                MM.import_shape_rule(m["ts_rs"], "C03"), MM.same_relation_rule(m["ts_rs"], "C03"), E.import_prefix_rule(m["ts_rs"], "C03")]
         if fs == "default":
-            res = [T.pairing_rule(ctx.syn, "C03"), T.selector_rule(ctx.syn, "C03", rule="C03.R1b"),
+            res = [F.pairing_rule(ctx.mir("default")["ts_rs_macros"], "C03"), F.selector_rule(ctx.mir("default")["ts_rs_macros"], "C03", rule="C03.R1b"),
                    T.deps_emission_rule(ctx.syn, m["ts_rs_macros"], "C03", "C03.R6"), D.dedup_key_rule(ctx.syn, "C03", rule="C03.R7", crate=m["ts_rs"]), T.generics_visit_rule(ctx.syn, "C03", "C03.R8")] + res
         else:
             for r in res:
